@@ -30,6 +30,7 @@ var c09BuildRules = []buildRule{
 	{"DEFAULT_NULLABLE_LITERAL", regexp.MustCompile(`cannot use .* as \*\w+ value in assignment`), func(ax map[string]string) bool { return ax["nullable"] == "true" }},
 	{"DEFAULT_FORMAT_LITERAL", regexp.MustCompile(`cannot use "[^"]*" \(untyped string constant\) as (\*?)(netip\.Addr|time\.Time|types\.Serializable(Date|Time)) value in assignment`), func(ax map[string]string) bool { return ax["format"] != "" }},
 	{"DEFAULT_OBJECT_LITERAL", regexp.MustCompile(`(cannot use .* as (\*\w+|\w+) value in struct literal|cannot use map\[string\]interface ?\{\}.* as \w+ value in assignment|missing type in composite literal|invalid composite literal type)`), func(ax map[string]string) bool { return ax["kind"] == "object" }},
+	{"DEFAULT_TYPE_SHADOWED_BY_LOCAL_PLAIN", regexp.MustCompile(`(cannot use Plain\{.*\} \(value of type Plain\) as Plain value in assignment|unknown field \w+ in struct literal of type Plain)`), func(ax map[string]string) bool { return ax["pos"] == "object-default-by-ref" && ax["leaf"] == "plain" }},
 	{"DEFAULT_NESTED_ARRAY_LITERAL", regexp.MustCompile(`cannot use \[\]interface ?\{\}.* as \[\]\w+ value in (array or slice literal|assignment)`), func(ax map[string]string) bool { return ax["leaf"] == "array-array" }},
 	{"DEFAULT_MIXED_ENUM_LITERAL", regexp.MustCompile(`cannot use .* \(untyped \w+ constant.*\) as \w+ value in assignment`), func(ax map[string]string) bool { return ax["kind"] == "enum-wrapped" }},
 }
@@ -207,6 +208,13 @@ func c09Cases(level int) []SCase {
 			Schema: J{"type": "object", "properties": J{"a": J{"type": "object", "properties": J{"b": mk(pair[0])}}, "viaRef": J{"$ref": "#/$defs/SAB"}}, "$defs": J{"SAB": mk(pair[1])}}})
 		cases = append(cases, SCase{ID: fmt.Sprintf("C09/same-type-name/two-defs/%s", typ), Cfg: baseCfg(), Axes: map[string]string{"pos": "same-type-name", "leaf": typ, "kind": typ},
 			Schema: J{"type": "object", "properties": J{"x": J{"$ref": "#/$defs/limits"}, "y": J{"$ref": "#/$defs/Limits"}}, "$defs": J{"limits": mk(pair[0]), "Limits": mk(pair[1])}}})
+	}
+	// an object default for a property whose type is a definition called like the helper type the methods declare locally (Plain), and, as a
+	// control, the same with a definition of another name
+	for _, dn := range []string{"plain", "Thing"} {
+		cases = append(cases, SCase{ID: "C09/object-default-by-ref/" + dn, Cfg: baseCfg(), Axes: map[string]string{"pos": "object-default-by-ref", "leaf": dn, "kind": "object-by-ref"},
+			Schema: J{"type": "object", "properties": J{"p": J{"$ref": "#/$defs/" + dn, "default": J{"x": 1}}, "q": J{"type": "string"}},
+				"$defs": J{dn: J{"type": "object", "properties": J{"x": J{"type": "integer"}}, "required": A{"x"}}}}})
 	}
 	return cases
 }
